@@ -613,6 +613,24 @@ class Checker:
                 if i < len(obs) and i < len(exp) and obs[i][:2] == exp[i][:2]: what = 'chose-another-sub-state'
                 else: what = 'resolution-sequence-differs'
                 self.v('C02' if kindname == 'select' else 'C12', '%s|%s' % (kindname, what), op, {'index': i, 'expected': exp[max(0, i - 1):i + 3], 'observed': obs[max(0, i - 1):i + 3]})
+        # C16 "in the order it happens": the resolution records sit among the select()/rank()/utility() calls where the interpreter
+        # places the resolutions (compared per segment between consecutive records, as multisets: the order in which independent
+        # candidates are asked is nobody's business)
+        if self.mirror_on and self.rl and obs == exp:
+            def segments(stream):
+                segs = [[]]
+                for e in stream:
+                    if e[0] == 'r': segs.append([])
+                    else: segs[-1].append(e[1:])
+                return [sorted(x) for x in segs]
+            so = segments([('a',) + tuple(a[:2]) if t == 'a' else ('r',) for t, a in op.lines if (t == 'a' and a[0] in (1, 2, 3)) or (t == 'r' and a[2] != 255)])
+            se = segments([e if e[0] == 'a' else ('r',) for e in m.events])
+            self.stats['C16.resolution-placements-checked'] += len(obs)
+            if so != se:
+                i = 0
+                while i < min(len(so), len(se)) and so[i] == se[i]: i += 1
+                rec = obs[i] if i < len(obs) else (obs[-1] if obs else None)
+                self.v('C16', 'resolution|%s-record-not-where-the-resolution-happens' % {0: 'select', 1: 'utility', 2: 'random'}.get(rec[0] if rec else 0), op, {'record-index': i, 'record': rec, 'calls-seen-before-it': so[i] if i < len(so) else None, 'calls-made-before-the-resolution': se[i] if i < len(se) else None})
         # independent exact-arithmetic check of every weighted draw the interpreter resolved
         for node, utils, ranks, top, r, chosen in m.random_cases:
             self.stats['C12.random-draws-checked'] += 1
